@@ -37,7 +37,7 @@ func ZZ_C11_Restore() {
 			rl.Config.Bind("emacs", "\x1d", "insert-comment", false)
 			rl.Config.Bind("emacs", "\x1e", "zz-panic", false)
 			rl.Keymap.Register(map[string]func(){"zz-panic": func() { panic("zz: user command panics") }})
-			rl.line.Set(buf...)
+			rl.line.Set(zzCopy(buf)...)
 			rl.cursor.Set(zzverif.IntRange("pos", 0, n))
 			if mode != "emacs" {
 				for _, km := range []string{"vi-insert", "vi-command"} {
